@@ -4,6 +4,7 @@ package harness
 
 import (
 	"bytes"
+	"os"
 	"sort"
 
 	"pgregory.net/rapid"
@@ -15,6 +16,10 @@ var longKeys = []string{string(bytes.Repeat([]byte{'k'}, 127)), string(bytes.Rep
 
 // genKey: structured pool, [a-c]{1,3}, neighbours of existing keys, length-boundary keys. Never empty.
 func genKey(t *rapid.T, existing map[string][]byte) []byte {
+	// the empty key is a legal tree key (node and fast-node storage keys stay non-empty); rare on purpose
+	if !noEmptyKey && rapid.IntRange(0, 29).Draw(t, "emptyKey") == 0 {
+		return []byte{}
+	}
 	c := rapid.IntRange(0, 19).Draw(t, "kc")
 	switch {
 	case c < 9:
@@ -24,6 +29,9 @@ func genKey(t *rapid.T, existing map[string][]byte) []byte {
 	case c < 18 && len(existing) > 0:
 		ks := sortedKeys(existing)
 		k := rapid.SampledFrom(ks).Draw(t, "ke")
+		if len(k) == 0 {
+			return []byte(k + "\x00")
+		}
 		switch rapid.IntRange(0, 4).Draw(t, "km") {
 		case 0, 1:
 			return []byte(k)
@@ -47,6 +55,8 @@ func genKey(t *rapid.T, existing map[string][]byte) []byte {
 		return []byte(rapid.SampledFrom(keyPool).Draw(t, "kp2"))
 	}
 }
+
+var noEmptyKey = os.Getenv("VERIF_NO_EMPTYKEY") != ""
 
 var bigValue = bytes.Repeat([]byte{'V'}, 200)
 
@@ -299,6 +309,9 @@ func GenBound(t *rapid.T, keys []string, label string) []byte {
 	case 2, 3, 4:
 		if len(keys) > 0 {
 			k := rapid.SampledFrom(keys).Draw(t, label+"k")
+			if len(k) == 0 {
+				return []byte{}
+			}
 			switch rapid.IntRange(0, 4).Draw(t, label+"m") {
 			case 0, 1:
 				return []byte(k)
